@@ -165,9 +165,12 @@ example : wfTsDoc (serverDoc sampleChecked true) = true ∧ (serverDoc sampleChe
     lexemesOK (tsDocToks (serverDoc sampleChecked true)) = true := by decide
 
 /-
+CONTINUED in `Props/C16Own.lean`: the composition over nitrogql's OWN parser (C07's PEG model) instead of the
+specification's lexer and parser — `C16_roundtrip_own_parser_exec` / `_ts` / `_tsext`, `server_module_roundtrip_own`.
+
 OPEN — carried by K/O only (never claimed as proved)
-  * the composition over nitrogql's own parser (C07's PEG model) instead of the specification's lexer and parser:
-    O evaluates parse(cook(module)) = strip(checked) with the real parser on generated schemas.
+  * over nitrogql's own parser: the documents outside the side conditions of `Props/C16Own.lean` (block strings, `\u{…}`
+    escapes, …: see the OPEN block of `Props/C16.lean`);
   * the `#import` lines of executable documents (comments for GraphQL, read by nitrogql's own import syntax).
 -/
 
